@@ -1,7 +1,11 @@
 package vkit
 
 import (
+	"os"
+	"strings"
 	"sync"
+	"sync/atomic"
+	"time"
 
 	"github.com/spf13/afero"
 	grpcimport "github.com/yandex/pandora/components/grpc/import"
@@ -21,7 +25,7 @@ var (
 // single in-memory filesystem and returns that filesystem.
 func Fs() afero.Fs {
 	importOnce.Do(func() {
-		memFs = afero.NewMemMapFs()
+		memFs = &slowFs{Fs: afero.NewMemMapFs()}
 		coreimport.Import(memFs)
 		phttpimport.Import(memFs)
 		grpcimport.Import(memFs)
@@ -39,6 +43,44 @@ func OsFsImport() afero.Fs {
 		grpcimport.Import(memFs)
 	})
 	return memFs
+}
+
+// slowFs is the in-memory filesystem with one injected fault: files whose path starts with
+// /slow/ are read slowly (at most 4 KiB per Read, SlowReadDelay per call) and every such Read
+// is counted, so that a monitor can cancel a component while it is still reading its input
+// and then count — logically, not by the clock — how much it went on reading.
+type slowFs struct{ afero.Fs }
+
+var (
+	SlowReads     atomic.Int64
+	SlowReadDelay = 2 * time.Millisecond
+)
+
+func (s *slowFs) Open(name string) (afero.File, error) {
+	f, err := s.Fs.Open(name)
+	if err == nil && strings.HasPrefix(name, "/slow/") {
+		return &slowFile{File: f}, nil
+	}
+	return f, err
+}
+
+func (s *slowFs) OpenFile(name string, flag int, perm os.FileMode) (afero.File, error) {
+	f, err := s.Fs.OpenFile(name, flag, perm)
+	if err == nil && strings.HasPrefix(name, "/slow/") && flag&(os.O_WRONLY|os.O_RDWR) == 0 {
+		return &slowFile{File: f}, nil
+	}
+	return f, err
+}
+
+type slowFile struct{ afero.File }
+
+func (f *slowFile) Read(p []byte) (int, error) {
+	SlowReads.Add(1)
+	time.Sleep(SlowReadDelay)
+	if len(p) > 4096 {
+		p = p[:4096]
+	}
+	return f.File.Read(p)
 }
 
 // NewMetrics returns fresh engine metrics.
